@@ -21,12 +21,15 @@ import random
 import sys
 import traceback
 from dataclasses import dataclass
-from datetime import timedelta
+from datetime import datetime, timedelta, timezone
 from typing import Dict, List
 
 sys.path.insert(0, os.path.join(os.environ.get("PYVC_REPO", "/repo"), "src"))
 
 import betterproto  # noqa: E402
+
+
+EPOCH = datetime(1970, 1, 1, tzinfo=timezone.utc)
 
 
 # ------------------------------------------------------------------------------------------------ schema
@@ -68,6 +71,7 @@ class Deep(betterproto.Message):
     mid: "Mid" = betterproto.message_field(9)
     r_d: List[float] = betterproto.double_field(10)
     dur: timedelta = betterproto.message_field(11)
+    ts: datetime = betterproto.message_field(12)
 
 
 SCHEMA = {
@@ -87,13 +91,14 @@ _REF = {}
 def ref(name):
     if not _REF:
         from google.protobuf import descriptor_pb2 as dpb, descriptor_pool, message_factory
-        from google.protobuf import duration_pb2  # noqa: F401
+        from google.protobuf import duration_pb2, timestamp_pb2  # noqa: F401
         FD = dpb.FieldDescriptorProto
         ty = {"int32": FD.TYPE_INT32, "string": FD.TYPE_STRING, "bool": FD.TYPE_BOOL, "message": FD.TYPE_MESSAGE,
               "float": FD.TYPE_FLOAT, "double": FD.TYPE_DOUBLE}
         pkg = "standin_deep"
         fdp = dpb.FileDescriptorProto(name="standin_deep.proto", package=pkg, syntax="proto3")
         fdp.dependency.append("google/protobuf/duration.proto")
+        fdp.dependency.append("google/protobuf/timestamp.proto")
         for mname, fields in SCHEMA.items():
             mp = fdp.message_type.add(name=mname)
             groups = {}
@@ -128,6 +133,7 @@ def ref(name):
         mp.field.add(name="mid", number=9, type=FD.TYPE_MESSAGE, label=FD.LABEL_OPTIONAL, type_name=f".{pkg}.Mid")
         mp.field.add(name="r_d", number=10, type=FD.TYPE_DOUBLE, label=FD.LABEL_REPEATED)
         mp.field.add(name="dur", number=11, type=FD.TYPE_MESSAGE, label=FD.LABEL_OPTIONAL, type_name=".google.protobuf.Duration")
+        mp.field.add(name="ts", number=12, type=FD.TYPE_MESSAGE, label=FD.LABEL_OPTIONAL, type_name=".google.protobuf.Timestamp")
         pool = descriptor_pool.Default()
         try:
             pool.Add(fdp)
@@ -162,7 +168,7 @@ def view(m, role="top"):
         raw = m.__dict__.get(name, betterproto.PLACEHOLDER)
         if raw is betterproto.PLACEHOLDER:
             raw = m._get_field_default(name)
-            if isinstance(raw, (betterproto.Message, timedelta)) or type(raw).__name__ == "datetime":
+            if isinstance(raw, (betterproto.Message, timedelta, datetime)):
                 fields[name] = "<absent>"
                 continue
         fields[name] = value_view(raw, in_group=bool(fm.group))
@@ -188,6 +194,9 @@ def value_view(v, in_group=False):
     if isinstance(v, timedelta):
         us = v // timedelta(microseconds=1)
         return "<absent>" if us == 0 and not in_group else "td:%d" % us     # a zero Duration field is not representable as present
+    if isinstance(v, datetime):
+        us = (v - EPOCH) // timedelta(microseconds=1)
+        return "<absent>" if us == 0 and not in_group else "dt:%d" % us     # the instant, whatever the offset it is written in
     if isinstance(v, bytes):
         return "b:" + v.hex()
     if isinstance(v, betterproto.Enum):
@@ -244,6 +253,9 @@ def to_ref(m):
         elif isinstance(v, timedelta):
             if v or meta.group:           # a zero Duration in a plain field is not representable as present
                 getattr(r, name).FromTimedelta(v)
+        elif isinstance(v, datetime):
+            if v != EPOCH or meta.group:
+                getattr(r, name).FromDatetime(v.astimezone(timezone.utc).replace(tzinfo=None))
         else:
             setattr(r, name, v)
     return r
@@ -263,6 +275,19 @@ UNK = [b"", bytes.fromhex("0807"), bytes.fromhex("12026869"), bytes.fromhex("080
 
 def hollows():
     return [("Hollow()", lambda: Hollow())] + [("Hollow().parse(%s)" % u.hex(), lambda u=u: Hollow().parse(u)) for u in UNK[1:]]
+
+
+def _tz(h, m=0):
+    return timezone((1 if h >= 0 else -1) * timedelta(hours=abs(h), minutes=m))
+
+
+TIMES = [("epoch", EPOCH), ("epoch+1us", EPOCH + timedelta(microseconds=1)), ("epoch-1us", EPOCH - timedelta(microseconds=1)),
+         ("1970-01-01T00:00+05:30 (wall clock reads as the epoch)", datetime(1970, 1, 1, tzinfo=_tz(5, 30))),
+         ("1970-01-01T00:00-08:00", datetime(1970, 1, 1, tzinfo=_tz(-8))), ("1969-12-31T19:00-05:00 (the epoch instant)", datetime(1969, 12, 31, 19, tzinfo=_tz(-5))),
+         ("2020-02-29T12:34:56.789+05:30", datetime(2020, 2, 29, 12, 34, 56, 789000, tzinfo=_tz(5, 30))),
+         ("0001-01-01", datetime(1, 1, 1, tzinfo=timezone.utc)), ("0999-12-31T23:59:59.123456", datetime(999, 12, 31, 23, 59, 59, 123456, tzinfo=timezone.utc)),
+         ("9999-12-31T23:59:59.999999", datetime(9999, 12, 31, 23, 59, 59, 999999, tzinfo=timezone.utc)),
+         ("1960-06-15T01:02:03.25-08:00", datetime(1960, 6, 15, 1, 2, 3, 250000, tzinfo=_tz(-8)))]
 
 
 def instances(rnd, n):
@@ -294,6 +319,8 @@ def instances(rnd, n):
     out.append(("Deep().parse(only unknown fields)", lambda: Deep().parse(bytes.fromhex("f00107fa01026869"))))
     for us in (0, 1, -1, 500000, -500000, -999999, 1500000, -1500000, 315576000000 * 10**6, -315576000000 * 10**6):
         out.append((f"Deep(dur=timedelta(microseconds={us}))", lambda us=us: Deep(dur=timedelta(microseconds=us))))
+    for label, dt in TIMES:
+        out.append((f"Deep(ts={label})", lambda dt=dt: Deep(ts=dt)))
     base = list(out)
     while len(out) < n:
         parts = [rnd.choice(base) for _ in range(rnd.randint(2, 4))]
@@ -391,6 +418,27 @@ def rel_C09(col, how, make):
     exp = bytes(betterproto.encode_varint(len(b))) + b
     if s.getvalue() != exp:
         col.fail("delimited-dump-differs", how, f"{s.getvalue().hex()} expected {exp.hex()}")
+    # the size is a function of the current state: measure, change the message in place (through containers and
+    # nested objects, i.e. without assigning a field of m itself), measure again
+    steps = [("r_d.append", lambda: m.r_d.append(2.5)), ("m_d[k]=", lambda: m.m_d.__setitem__("zz", 1.5)),
+             ("mid.leaf.n=", lambda: setattr(m.mid.leaf, "n", 300)), ("r_choice.append", lambda: m.r_choice.append(Choice(label="x" * 130))),
+             ("m_choice[k]=", lambda: m.m_choice.__setitem__("q", Choice(count=7))), ("parse-merge", lambda: m.parse(bytes.fromhex("52080000000000000440"))),
+             ("r_d.clear", lambda: m.r_d.clear())]
+    for label, step in steps:
+        if guard(col, "mutate-" + label, how, lambda: (step(), True)[1]) is None:
+            return
+        n2 = guard(col, "len-after-" + label, how, lambda: len(m))
+        b2 = guard(col, "encode-after-" + label, how, lambda: bytes(m))
+        if n2 is None or b2 is None:
+            return
+        if n2 != len(b2):
+            col.fail("len-stale-after-in-place-change", how + " then " + label, f"len(m)={n2} len(bytes(m))={len(b2)}")
+            return
+        s2 = io.BytesIO()
+        m.dump(s2, betterproto.SIZE_DELIMITED)
+        if s2.getvalue() != bytes(betterproto.encode_varint(len(b2))) + b2:
+            col.fail("delimited-prefix-stale-after-in-place-change", how + " then " + label, s2.getvalue().hex()[:80])
+            return
 
 
 def rel_C08(col, how, make):
@@ -458,6 +506,127 @@ def rel_C06(col, how, make):
     d1 = guard(col, "to_dict-after-reads", how, lambda: m.to_dict())
     if d0 is not None and d1 is not None and json.dumps(d0, sort_keys=True, default=str) != json.dumps(d1, sort_keys=True, default=str):
         col.fail("reads-change-to_dict", how, f"{d0} -> {d1}")
+
+
+def assign_histories(col):
+    """C06: assigning inside a sub-message makes it present - also when the value assigned is the default, also when
+    the slot was read before (reads materialise defaults lazily); the reference performs the same assignments"""
+    paths = [(("mid",), "name", ""), (("mid",), "name", "x"), (("mid", "leaf"), "n", 0), (("mid", "leaf"), "n", 5),
+             (("one",), "count", 0), (("one",), "label", ""), (("mid", "pick"), "flag", False)]
+    for path, field, value in paths:
+        for read_first in (False, True):
+            for twice in (False, True):
+                how = "Deep(); %s%s.%s = %r%s" % ("read %s.%s; " % (".".join(path), field) if read_first else "", ".".join(path), field, value,
+                                                   " (assigned twice)" if twice else "")
+                col.cases += 1
+                col.distinct.add(how)
+
+                def run():
+                    m, r = Deep(), ref("Deep")()
+                    om, orr = m, r
+                    for p in path:
+                        om, orr = getattr(om, p), getattr(orr, p)
+                    if read_first:
+                        try:
+                            getattr(om, field)
+                        except AttributeError:
+                            pass
+                    for _ in range(2 if twice else 1):
+                        setattr(om, field, value)
+                        setattr(orr, field, value)
+                    return m, r
+                got = guard(col, "assign", how, run)
+                if got is None:
+                    continue
+                m, r = got
+                rb = r.SerializeToString(deterministic=True)
+                b = guard(col, "encode", how, lambda: bytes(m))
+                if b is not None and b != rb:
+                    col.fail("assignment-inside-does-not-create-presence-like-the-reference:%d-level" % len(path), how, f"ours {b.hex()} reference {rb.hex()}")
+                top = getattr(m, path[0])
+                if not betterproto.serialized_on_wire(top):
+                    col.fail("assigned-inside-but-not-present:%d-level" % len(path), how, f"serialized_on_wire(m.{path[0]}) is False")
+
+
+def copy_histories(col):
+    """C07 / C14: a copy is a separate message - selecting another member on one of the two objects leaves the other one
+    exactly as it was (which_one_of, readable members, encoding)"""
+    members = [("count", 3), ("count", 0), ("label", "t"), ("label", ""), ("flag", True), ("leaf", Leaf(n=1))]
+    makers = [("copy", copy.copy), ("deepcopy", copy.deepcopy), ("pickle", lambda x: pickle.loads(pickle.dumps(x)))]
+    for t0, f0 in choices():
+        for mname, val in members:
+            for cname, cp in makers:
+                for mutate_copy in (True, False):
+                    how = f"a = {t0}; b = {cname}(a); {'b' if mutate_copy else 'a'}.{mname} = {val!r}"
+                    col.cases += 1
+                    col.distinct.add(how)
+
+                    def run():
+                        a = f0()
+                        b = cp(a)
+                        tgt, other = (b, a) if mutate_copy else (a, b)
+                        before = (json.dumps(view(other), sort_keys=True, default=str), bytes(other), betterproto.which_one_of(other, "pick")[0])
+                        setattr(tgt, mname, copy.deepcopy(val))
+                        after = (json.dumps(view(other), sort_keys=True, default=str), bytes(other), betterproto.which_one_of(other, "pick")[0])
+                        return before, after, tgt
+                    got = guard(col, "history", how, run)
+                    if got is None:
+                        continue
+                    before, after, tgt = got
+                    if before != after:
+                        col.fail("change-of-one-object-shows-in-its-copy", how, f"{before} -> {after}")
+                    sel = betterproto.which_one_of(tgt, "pick")[0]
+                    if sel != mname:
+                        col.fail("assigned-member-not-selected", how, f"which_one_of -> {sel!r}")
+                    for other_member in ("count", "label", "flag", "leaf"):
+                        if other_member == mname:
+                            continue
+                        try:
+                            getattr(tgt, other_member)
+                            col.fail("unselected-member-readable", how, f"{other_member} readable while {mname} is selected")
+                        except AttributeError:
+                            pass
+
+
+def rel_C07(col, how, make):
+    """container / nesting part of C07: every Choice reachable from the instance has at most one readable member and
+    encodes exactly that member"""
+    m = make()
+
+    def walk(x):
+        if isinstance(x, Choice):
+            yield x
+        if isinstance(x, betterproto.Message):
+            for name in x._betterproto.sorted_field_names:
+                v = x.__dict__.get(name, betterproto.PLACEHOLDER)
+                for y in (v if isinstance(v, list) else (list(v.values()) if isinstance(v, dict) else [v])):
+                    if isinstance(y, betterproto.Message):
+                        yield from walk(y)
+    for stage, obj in (("as built", m), ("decoded", guard(col, "decode", how, lambda: Deep().parse(bytes(make())))),
+                       ("deepcopy", guard(col, "deepcopy", how, lambda: copy.deepcopy(make()))),
+                       ("from_dict", guard(col, "from_dict", how, lambda: Deep().from_dict(make().to_dict())) if not nested_unknown(m) and not m._unknown_fields else None)):
+        if obj is None:
+            continue
+        for c in walk(obj):
+            sel = betterproto.which_one_of(c, "pick")[0]
+            readable = []
+            for name in ("count", "label", "flag", "leaf"):
+                try:
+                    getattr(c, name)
+                    readable.append(name)
+                except AttributeError:
+                    pass
+            if readable != ([sel] if sel else ["count", "label", "flag", "leaf"]) and not (sel == "" and readable == []):
+                if sel and readable != [sel]:
+                    col.fail("readable-members-differ-from-selection", how + f" [{stage}]", f"which_one_of={sel!r} readable={readable}")
+            r = ref("Choice")()
+            try:
+                r.ParseFromString(bytes(c))
+            except Exception as e:
+                col.fail("choice-encoding-rejected", how + f" [{stage}]", str(e))
+                continue
+            if (r.WhichOneof("pick") or "") != sel:
+                col.fail("encoding-carries-another-member", how + f" [{stage}]", f"which_one_of={sel!r} encoded={r.WhichOneof('pick')!r} bytes={bytes(c).hex()}")
 
 
 def rel_C04(col, how, make):
@@ -538,7 +707,42 @@ def rel_C15(col, rnd):
                 col.fail("duration-json-not-canonical", how, f"{out!r}: {e}")
 
 
-RELS = {"C01": rel_C01, "C02": rel_C02, "C04": rel_C04, "C06": rel_C06, "C08": rel_C08, "C09": rel_C09, "C14": rel_C14}
+def rel_C15_ts(col):
+    from google.protobuf import timestamp_pb2
+    for label, dt in TIMES:
+        col.cases += 1
+        col.distinct.add(("ts", label))
+        how = f"Timestamp {label}"
+        us = (dt - EPOCH) // timedelta(microseconds=1)
+        d = guard(col, "to_dict", how, lambda: Deep(ts=dt).to_dict())
+        if d is not None:
+            if "ts" not in d:
+                if us != 0:
+                    col.fail("timestamp-omitted-from-json-although-not-the-epoch", how, f"to_dict() == {d}")
+            else:
+                exp = timestamp_pb2.Timestamp()
+                try:
+                    exp.FromJsonString(d["ts"])
+                    got_us = exp.seconds * 10**6 + exp.nanos // 1000
+                    if got_us != us:
+                        col.fail("timestamp-json-denotes-another-instant", how, f"{d['ts']!r} is {got_us} us, expected {us}")
+                except Exception as e:
+                    col.fail("timestamp-json-not-rfc3339", how, f"{d['ts']!r}: {e}")
+        r = timestamp_pb2.Timestamp()
+        r.FromDatetime(dt.astimezone(timezone.utc).replace(tzinfo=None))
+        text = r.ToJsonString()
+        back = guard(col, "from_dict", how + f" as {text!r}", lambda: Deep().from_dict({"ts": text}).ts)
+        if back is not None and (back - EPOCH) // timedelta(microseconds=1) != us:
+            col.fail("timestamp-json-parsed-differently", how, f"{text!r} -> {back!r}")
+        rt = guard(col, "json-roundtrip", how, lambda: Deep().from_json(Deep(ts=dt).to_json()).ts)
+        if rt is not None and (rt - EPOCH) // timedelta(microseconds=1) != us:
+            col.fail("timestamp-json-roundtrip-changes-the-instant", how, f"{rt!r}")
+        wire = guard(col, "binary-roundtrip", how, lambda: Deep().parse(bytes(Deep(ts=dt))).ts)
+        if wire is not None and (wire - EPOCH) // timedelta(microseconds=1) != us:
+            col.fail("timestamp-binary-roundtrip-changes-the-instant", how, f"{wire!r}")
+
+
+RELS = {"C01": rel_C01, "C02": rel_C02, "C04": rel_C04, "C06": rel_C06, "C07": rel_C07, "C08": rel_C08, "C09": rel_C09, "C14": rel_C14}
 
 
 def main(argv=None):
@@ -551,6 +755,7 @@ def main(argv=None):
     col = Col(a.prop)
     if a.prop == "C15":
         rel_C15(col, rnd)
+        rel_C15_ts(col)
     else:
         rel = RELS[a.prop]
         for how, make in instances(rnd, a.n):
@@ -562,6 +767,10 @@ def main(argv=None):
                 col.fail("harness:" + type(e).__name__, how, traceback.format_exc()[-400:])
             if len(col.samples) < 3 and col.cases % 17 == 3:
                 col.samples.append({"instance": how, "bytes": bytes(make()).hex()})
+        if a.prop == "C06":
+            assign_histories(col)
+        if a.prop in ("C07", "C14"):
+            copy_histories(col)
     if not col.samples:
         col.samples.append({"instance": "Duration JSON strings" if a.prop == "C15" else "Deep()", "cases": col.cases})
     json.dump({"property": a.prop, "cases": col.cases, "distinct_nontrivial": len(col.distinct) - 1 if a.prop != "C15" else len(col.distinct),
